@@ -430,8 +430,8 @@ impl Property for SolverProp {
     fn max_len(&self) -> usize { 256 }
     fn budget(&self) -> (u64, u64) {
         // quick tiers sized to 10-20 s of wall time with 16 workers (C01 and C03 also enumerate a family). C11 runs every
-        // program five times and the engine leaks its search trees (Rc cycles): 20 000 cases cost a worker about 2 GB
-        match self.aspect { Aspect::Answers | Aspect::Not => (2500, 60_000), Aspect::Renaming => (4000, 20_000), _ => (10_000, 60_000) }
+        // program five times and the engine leaks its search trees (Rc cycles): 10 000 cases (thorough) cost a worker about 1.4 GB
+        match self.aspect { Aspect::Answers | Aspect::Not => (2500, 60_000), Aspect::Renaming => (4000, 10_000), _ => (10_000, 60_000) }
     }
 
     fn check(&self, src: &mut dyn Src, rep: &mut Report) -> CaseResult {
